@@ -9,7 +9,7 @@ LABEL_RE = re.compile(r'/\*#([A-Za-z0-9_.:<> ,&\'\[\]-]+?)\*/')
 FAIL_PATTERNS = [
     (r'postcondition not satisfied', 'postcondition'),
     (r'precondition not satisfied|precondition not met', 'precondition'),
-    (r'assertion failed', 'assertion'),
+    (r'assertion failed|expression simplifies to .* evaluates to false', 'assertion'),
     (r'invariant not satisfied', 'invariant'),
     (r'loop ensures not satisfied|ensures not satisfied', 'postcondition'),
     (r'possible arithmetic underflow/overflow', 'arith'),
